@@ -455,3 +455,52 @@ def run_dt_parallel(R, P, rule, jobs=12):
             R.ob(rule, "co-class rounding %s of date-times (dt_round, with the day carry): the nearest multiple on the requested side with all "
                  "finer fields zero" % kind, True)
     return n
+
+
+def run_epoch(R, P, rule):
+    """co-class rounding of instants held as epoch values (sxround_dur_cocl): the nearest multiple of the unit on the requested side,
+    for instants on both sides of 1970"""
+    tu = P.tu("dround-dround.o")
+    fn = tu.func("sxround_dur_cocl")
+    if fn is None or getattr(fn, "body", None) is None:
+        raise AnalysisBroken("%s: sxround_dur_cocl vanished" % rule)
+    R.saw(fn)
+    E = {k: tu.enum_value(k) for k in ("DT_DURS", "DT_DURM", "DT_DURH")}
+    if None in E.values():
+        raise AnalysisBroken("%s: tags not found (%s)" % (rule, E))
+    bad = []
+    n = 0
+    tabs = {}
+    try:
+        for t in (-86401, -86400, -3601, -3600, -100, -61, -60, -59, -1, 0, 1, 59, 60, 61, 100, 3599, 3600, 86399, 86400, 1341100799, -1341100799):
+            for unit, cnt, secs in (("DT_DURM", 1, 60), ("DT_DURM", 15, 900), ("DT_DURH", 1, 3600), ("DT_DURS", 30, 30), ("DT_DURH", 6, 21600)):
+                for down in (False, True):
+                    for nxt in (0, 1):
+                        dur = {"durtyp": E[unit], "dv": -cnt if down else cnt, "neg": 0, "cocl": 1}
+                        fo = fold.Folder(fn, calls={}, inline=True, max_steps=200000)
+                        fo._tabs = tabs
+                        try:
+                            got = fo.run([t, dict(dur), nxt])
+                        except fold.Abort as e:
+                            got = "abort: %s" % e
+                        n += 1
+                        if down:
+                            exp = (t // secs) * secs
+                            if exp == t and nxt:
+                                exp -= secs
+                        else:
+                            exp = -((-t) // secs) * secs
+                            if exp == t and nxt:
+                                exp += secs
+                        if got != exp:
+                            bad.append((t, "%s/%d%s%s" % ("-" if down else "", cnt, {"DT_DURS": "s", "DT_DURM": "m", "DT_DURH": "h"}[unit], " --next" if nxt else ""), got, exp))
+    except NotConst as e:
+        raise AnalysisBroken("%s: sxround_dur_cocl left the foldable fragment (%s)" % (rule, e))
+    if bad:
+        t, what, got, exp = bad[0]
+        R.finding(rule, fn, "co-class rounding of epoch values, decoded", "%d of %d points differ from the definition; first: the instant %d "
+                  "rounded to %s gives %s, the nearest multiple on the requested side is %d" % (len(bad), n, t, what, got, exp))
+    else:
+        R.ob(rule, "co-class rounding of epoch values (%d points, both sides of 1970, both directions, with and without --next): the nearest "
+             "multiple of the unit on the requested side" % n, True)
+    return n
